@@ -15,7 +15,7 @@ META = dict(
     property="C23",
     level="fault_enumeration",
     technique="generated responses (h11 + hand grammar) x every truncation point x segmentation x deliverBody timing against a reference response parser",
-    level_text="For each generated response every truncation point 0..len(wire) is executed (connection loss after that many bytes), with a generated segmentation, deliverBody timing (in the callback / after k deliveries / after the loss / never), a transport that does or does not stop reading when paused, persistent or not. A fixed set of small responses is additionally run with every (truncation, single cut) pair. Bounded by the generated response shapes (bodies <= ~60 bytes, <= 2 interim responses, <= 4 chunks).",
+    level_text="For each generated response every truncation point 0..len(wire) is executed (connection loss after that many bytes), with a generated segmentation, deliverBody timing (in the callback / after k deliveries / after the loss / never), a transport that does or does not stop reading when paused, persistent or not. A fixed set of small responses is additionally run with every (truncation, single cut) pair. Bounded by the generated response shapes (bodies <= ~60 bytes, <= 2 interim responses (which may carry entity and connection-control / framing headers of their own), <= 4 chunks).",
     level_note="Trusted: the reference parser ref_parse (written from RFC 9112 sec. 2-7 for the generated grammar), h11 as serializer, the StringTransport double. Responses are well formed except for four marked malformed classes whose only asserted outcome is 'exactly one failure'. While the request body is still being sent only exactly-once is asserted (request() documents RequestTransmissionFailed there).",
     design_ref="§5 C23",
     rule="case = (request method, response structure, trunc, cuts, deliverBody timing, honour_pause, persistent, loss kind). non-trivial = the loss falls after the header block and before the end of a length/chunk-delimited body, or anywhere in a close-delimited body (i.e. inside body data or chunk framing); distinct by (method, wire bytes, trunc).",
@@ -489,6 +489,11 @@ def run_case(ctx, case):
     ctx.count("ser=" + (resp.get("ser") or "hand"))
     if resp.get("interim"):
         ctx.count("with interim 1xx")
+        ictl = {n.lower() for code, hs in resp["interim"] for n, v in hs} & CONTROL
+        if ictl:
+            ctx.count("interim 1xx carries a connection-control header")
+        if ictl & {b"content-length", b"transfer-encoding"}:
+            ctx.count("interim 1xx carries a framing header (CL/TE)")
     if method == b"HEAD" or resp["status"] in NO_BODY:
         ctx.count("bodiless (HEAD/204/304)")
     if malformed:
@@ -522,6 +527,13 @@ TOK = st.sampled_from([b"X-A", b"Server", b"x-b", b"ETag", b"Content-Type", b"Li
 VAL = st.sampled_from([b"v", b"a b", b"text/html; charset=utf-8", b"W/\"x\"", b"1", b"a  b c", b""])
 
 
+CTRL_HDR = st.sampled_from([[b"Content-Length", b"0"], [b"Content-Length", b"7"], [b"content-length", b"3"],
+                            [b"Transfer-Encoding", b"chunked"], [b"Connection", b"close"],
+                            [b"Connection", b"keep-alive"], [b"Keep-Alive", b"timeout=5"],
+                            [b"Upgrade", b"h2c"], [b"Trailers", b"X-A"], [b"Proxy-Connection", b"close"],
+                            [b"TE", b"trailers"]])
+
+
 @st.composite
 def response(draw):
     ser = draw(st.sampled_from(["hand", "hand", "h11"]))
@@ -535,8 +547,14 @@ def response(draw):
     headers = draw(st.lists(st.tuples(TOK, VAL).map(list), max_size=3))
     if ser == "h11":
         headers = [h for h in headers if h[1] != b""]
+    # an interim response is ignored as a whole: whatever header it carries,
+    # also connection-control / framing ones, says nothing about the final
+    # response (h11 refuses to serialize some of those, so hand grammar only)
+    ihdr = st.tuples(TOK, VAL.filter(bool)).map(list)
+    if ser == "hand":
+        ihdr = st.one_of(ihdr, CTRL_HDR, CTRL_HDR)
     interim = draw(st.lists(st.tuples(st.sampled_from([100, 102, 103]),
-                                      st.lists(st.tuples(TOK, VAL.filter(bool)).map(list), max_size=1)).map(list),
+                                      st.lists(ihdr, max_size=2)).map(list),
                             max_size=2)) if draw(st.booleans()) else []
     resp = dict(ser=ser, status=status, body=body, headers=headers, interim=interim,
                 conn_close=draw(st.booleans()))
@@ -592,6 +610,8 @@ SMALL = [
     (b"GET", _r(framing="chunked", body=[b"q"], status=204)),
     (b"GET", _r(framing="cl_dup", body=[b"abc"], conn_close=True)),
     (b"GET", _r(ser="h11", framing="chunked", body=[b"ab", b"c"])),
+    (b"GET", _r(framing="close", body=[b"abc"], interim=[[100, [[b"Content-Length", b"0"]]]])),
+    (b"GET", _r(framing="cl", body=[b"abcd"], interim=[[103, [[b"Transfer-Encoding", b"chunked"], [b"Connection", b"close"]]]])),
     (b"GET", _r(ser="h11", framing="close", body=[b"abc"])),
 ]
 
